@@ -1,6 +1,90 @@
 import NpsVerif.Model.BitArray
+import NpsVerif.Proofs.BitOps
+/-!
+# C13: `BitArray` — pack / unpack / getitem / sliding_window against ONE number
+
+The specification is `stream b a = Σ a[i]·2^(b·i)`. Proofs are in `NpsVerif/Proofs/Bits.lean`
+(stream arithmetic), `NpsVerif/Proofs/BitPack.lean` (the `|=` loop of `pack`) and
+`NpsVerif/Proofs/BitOps.lean` (unpack, getitem, sliding window). Each theorem is followed by a
+closed instance checked by `decide` (non-vacuity).
+-/
 namespace Props.C13
 open Model.BitArray
-/-- sanity instance (the universally quantified theorems are added below as they are proved) -/
+
+/-- sanity instance of the specification function -/
 theorem stream_example : stream 2 [1, 3, 2] = 1 + 4 * (3 + 4 * 2) := by decide
+
+/-- the registers of `pack a b` are the consecutive 64-bit slices of the single number
+`stream b a = Σ a[i]·2^(b·i)` (including the partial last register) -/
+theorem C13_pack (a : List Nat) (b : Nat) (hb0 : 0 < b) (hb : b ∣ 64) (ha : ∀ x ∈ a, x < 2 ^ b) :
+    pack a b = (List.range ((a.length + 64 / b - 1) / (64 / b))).map
+      (fun r => (stream b a >>> (64 * r)) % 2 ^ 64) :=
+  Proofs.BitOps.pack_regs a b hb0 hb ha
+
+-- b = 32, three entries: two registers, the second one partial
+example : pack [0xDEADBEEF, 0x12345678, 0xCAFEF00D] 32 = [0x12345678DEADBEEF, 0xCAFEF00D] := by decide
+example : (List.range ((3 + 64 / 32 - 1) / (64 / 32))).map
+    (fun r => (stream 32 [0xDEADBEEF, 0x12345678, 0xCAFEF00D] >>> (64 * r)) % 2 ^ 64)
+    = [0x12345678DEADBEEF, 0xCAFEF00D] := by decide
+-- b = 2, 35 entries: 32 per register, 3 in the partial second register
+example : pack ((List.range 35).map (· % 4)) 2
+    = (List.range ((35 + 64 / 2 - 1) / (64 / 2))).map
+        (fun r => (stream 2 ((List.range 35).map (· % 4)) >>> (64 * r)) % 2 ^ 64) := by decide
+example : (pack ((List.range 35).map (· % 4)) 2).length = 2 := by decide
+
+/-- packing is lossless: same values, same order, same number -/
+theorem C13_unpack_pack (a : List Nat) (b : Nat) (hb0 : 0 < b) (hb : b ∣ 64) (ha : ∀ x ∈ a, x < 2 ^ b) :
+    unpack (pack a b) b a.length = a :=
+  Proofs.BitOps.unpack_pack a b hb0 hb ha
+
+example : unpack (pack [0xDEADBEEF, 0x12345678, 0xCAFEF00D] 32) 32 3
+    = [0xDEADBEEF, 0x12345678, 0xCAFEF00D] := by decide
+example : unpack (pack ((List.range 35).map (· % 4)) 2) 2 35 = (List.range 35).map (· % 4) := by decide
+
+/-- integer indexing returns that element -/
+theorem C13_getitem (a : List Nat) (b : Nat) (hb0 : 0 < b) (hb : b ∣ 64) (ha : ∀ x ∈ a, x < 2 ^ b)
+    (i : Nat) (hi : i < a.length) :
+    getitem (pack a b) b i = some a[i] :=
+  Proofs.BitOps.getitem_pack a b hb0 hb ha i hi
+
+example : getitem (pack [0xDEADBEEF, 0x12345678, 0xCAFEF00D] 32) 32 2 = some 0xCAFEF00D := by decide
+example : getitem (pack ((List.range 35).map (· % 4)) 2) 2 34 = some 2 := by decide
+
+/-- indexing with a list of positions returns a packed array of those elements -/
+theorem C13_getitem_list (a : List Nat) (b : Nat) (hb0 : 0 < b) (hb : b ∣ 64) (ha : ∀ x ∈ a, x < 2 ^ b)
+    (is : List Nat) (his : ∀ i ∈ is, i < a.length) :
+    (getitemList (pack a b) b is).map (fun d => unpack d b is.length) = is.mapM (a[·]?) :=
+  Proofs.BitOps.getitemList_pack a b hb0 hb ha is his
+
+example : (getitemList (pack [0xDEADBEEF, 0x12345678, 0xCAFEF00D] 32) 32 [2, 0, 2]).map
+    (fun d => unpack d 32 3) = some [0xCAFEF00D, 0xDEADBEEF, 0xCAFEF00D] := by decide
+example : (getitemList (pack ((List.range 35).map (· % 4)) 2) 2 [34, 33, 1, 31, 32]).map
+    (fun d => unpack d 2 5) = some [2, 1, 1, 3, 0] := by decide
+
+/-- `sliding_window(w)[i]` is the integer whose j-th b-bit digit is element `i+j` — whether or not
+the window straddles a register boundary -/
+theorem C13_sliding_window (a : List Nat) (b : Nat) (hb0 : 0 < b) (hb : b ∣ 64) (ha : ∀ x ∈ a, x < 2 ^ b)
+    (w : Nat) (hw : 1 ≤ w) (hwb : w * b ≤ 64) (hwl : w ≤ a.length) :
+    slidingWindow (pack a b) b a.length w =
+      (List.range (a.length - w + 1)).map (fun i => (stream b a >>> (b * i)) % 2 ^ (w * b)) :=
+  Proofs.BitOps.slidingWindow_pack a b hb0 hb ha w hw hwb hwl
+
+-- b = 32, w = 2: the window at position 1 straddles the register boundary
+example : slidingWindow (pack [0xDEADBEEF, 0x12345678, 0xCAFEF00D] 32) 32 3 2
+    = [0x12345678DEADBEEF, 0xCAFEF00D12345678] := by decide
+-- b = 2, w = 5, 35 entries: windows 28..31 straddle the boundary
+example : slidingWindow (pack ((List.range 35).map (· % 4)) 2) 2 35 5
+    = (List.range 31).map (fun i => (stream 2 ((List.range 35).map (· % 4)) >>> (2 * i)) % 2 ^ 10) := by
+  decide
+example : (slidingWindow (pack ((List.range 35).map (· % 4)) 2) 2 35 5)[30]? = some 0b1001001110 := by
+  decide
+
+/-- digits of the stream: the j-th b-bit digit of window i is element i+j -/
+theorem C13_stream_digit (a : List Nat) (b : Nat) (ha : ∀ x ∈ a, x < 2 ^ b) (i : Nat) (hi : i < a.length) :
+    (stream b a >>> (b * i)) % 2 ^ b = a[i] :=
+  Proofs.Bits.stream_digit b a ha i hi
+
+example : (stream 2 [1, 3, 2] >>> (2 * 1)) % 2 ^ 2 = 3 := by decide
+example : (stream 32 [0xDEADBEEF, 0x12345678, 0xCAFEF00D] >>> (32 * 2)) % 2 ^ 32 = 0xCAFEF00D := by decide
+
 end Props.C13
